@@ -89,6 +89,7 @@ def check_history(case, stats):
         stats.label("excluded_known_F1")
         return
     parser = gh.Parser()
+    other_parser = gh.Parser()   # case["two_parsers"]: the one matcher serves two parsers in turn
     # own_matcher=False: the parser's default matcher path (parse(text) without a matcher; only meaningful for 'en')
     own = case.get("own_matcher", True) or dflt != "en"
     matcher = gh.TokenMatcher(dflt) if own else None
@@ -133,6 +134,8 @@ def check_history(case, stats):
             import pickle
             how = [copy.copy, copy.deepcopy, gh.pickle_clone][(i // 2 + len(items)) % 3]
             r = gh.parse(text, parser=parser if i % 2 else how(parser), matcher=matcher if i % 2 else how(matcher), stop=stop)
+        elif case.get("two_parsers") and own:
+            r = gh.parse(text, parser=other_parser if i % 2 else parser, matcher=matcher, stop=stop)
         else:
             r = gh.parse(text, parser=parser, matcher=matcher, stop=stop) if own else parse_default(parser, text, stop)
         if not mixed and r[0] != "ok" and not stop and i + 1 < len(items):
@@ -189,7 +192,7 @@ def unit_pool(a):
                         if k == 3 and a["sample"] and (n // a["nshards"]) % a["sample"] != a["seed"] % a["sample"]:
                             continue
                         yield {"sub": "history", "default": dflt, "names": list(hist), "items": [[POOL[h], s] for h, s in zip(hist, stops)], "check_dialects": n % 50 == 0,
-                               "own_matcher": not (dflt == "en" and n % 2), "dirty_matcher": n % 3 == 0, "mixed_call_styles": n % 5 == 0, "clones": False, "scanner_objects": False, "swap_builder": False}
+                               "own_matcher": not (dflt == "en" and n % 2), "dirty_matcher": n % 3 == 0, "mixed_call_styles": n % 5 == 0, "clones": False, "scanner_objects": False, "swap_builder": False, "two_parsers": n % 4 == 1}
     sweep(stats, gen(), check_history)
     return stats
 
